@@ -390,3 +390,5 @@ def _carbon_clause_shared(ctx) -> None:
     from . import c07
 
     c07.rule_e12(ctx, "C03-V9")
+    # V10: the carbon totals behind the label are sums over every component, with multiplicity (shared with C07-E6)
+    c07.rule_e6(ctx, "C03-V10")
